@@ -31,7 +31,7 @@ ASSUMPTIONS = ["probe battery is finite (listed in vf/props/c16.py)",
 REPORT_COUNTERS = ["histories", "operations", "probes_compared", "objects_probed_after_5plus_later_ops", "op:redefine",
                    "op:redefine_many", "op:remove", "op:extend_override", "op:extend_typechecker", "op:extend_nochange",
                    "op:create", "op:create_version", "op:extend_version", "op:create_default_types", "op:validator_types", "op:checks",
-                   "op:cls_checks", "op:formats_subset", "op:validator_twins", "untouched_twins_probed_later"]
+                   "op:cls_checks", "op:formats_subset", "op:validator_twins", "untouched_twins_probed_later", "versioned_create_without_id"]
 
 TYPE_NAMES = ["array", "boolean", "integer", "null", "number", "object", "string", "any", "thing", "zz-unknown"]
 INSTANCES = [None, True, False, 0, 1, 1.0, 1.5, "", "s", [], [1], {}, {"a": 1}]
@@ -62,7 +62,8 @@ def shards(tier):
 
 
 def floors(tier):
-    f = {"histories": 400, "operations": 5000, "probes_compared": 30000, "objects_probed_after_5plus_later_ops": 1000}
+    f = {"histories": 400, "operations": 5000, "probes_compared": 30000, "objects_probed_after_5plus_later_ops": 1000,
+         "versioned_create_without_id": 50, "untouched_twins_probed_later": 200}
     for op in ("redefine", "redefine_many", "remove", "extend_override", "extend_typechecker", "extend_nochange", "create",
                "create_version", "extend_version", "create_default_types", "validator_types", "checks", "cls_checks", "formats_subset", "validator_twins"):
         f["op:" + op] = 150
@@ -396,6 +397,15 @@ def run_history(rec, ops, base_draft):
                         meta[idk] = ("http://vf.example/meta/future-%d" % (op["r"] % 3)) if rng.random() < 0.6 else \
                             "http://vf.example/meta/%d/%d" % (op["r"], n)
                         kwargs["version"] = "vf%d_%d" % (op["r"], n)
+                        if rng.random() < 0.3:
+                            # a hand-written metaschema: no id of its own, `$schema` says which dialect IT is written in
+                            # (per the class's own ID_OF it has no id, so it claims no registry entry)
+                            meta.pop(idk, None)
+                            meta.pop("id", None)
+                            meta.pop("$id", None)
+                            meta["$schema"] = impl.META_ID[rng.choice(impl.DRAFTS)]
+                            meta["properties"] = dict(meta.get("properties", {}), title={"type": "integer"})
+                            rec.count("versioned_create_without_id")
                     new = validators.create(**kwargs)
                     new.VALIDATORS["vf-added-after-create"] = kw_fn("late")    # the new class's own table may be edited freely
                     st.add("C", new, "%s(%s)" % (kind, C["label"]), extra=C["extra"])
